@@ -797,7 +797,7 @@ def _search_case(rng):
     if rng.random() < 0.25:
         case["mo"] = _rand_mo(rng)
     if rng.random() < 0.4:
-        case["kwargs"] = {rng.choice(["lot", "obasis_name", "run_type", "charge", "spinmult", "title"]): rng.choice(["KW", 7, "zz"])}
+        case["kwargs"] = {rng.choice(["lot", "obasis_name", "run_type", "charge", "spinmult", "title"]): rng.choice(["KW", 7, "zz", 0, ""])}
     if rng.random() < 0.5:
         case["template"] = PROBE
     elif rng.random() < 0.15:
